@@ -45,7 +45,7 @@ def _sorted_distinct(draw, n, elem):
 
 
 @st.composite
-def geometry_spec(draw, kinds=None, simple_lines=False, allow_degenerate=True, free_prob=True, edges=True, small=False, frame=None):
+def geometry_spec(draw, kinds=None, simple_lines=False, allow_degenerate=True, free_prob=True, edges=True, small=False, frame=None, invalid_polygons=False):
     """A *valid* geometry as {"type":…, "coordinates":…} plus a "meta" dict (scale, flags).
 
     Coordinates are built in unit space [0,4]x[0,4] (dyadic grid or free floats) and mapped
@@ -155,6 +155,19 @@ def geometry_spec(draw, kinds=None, simple_lines=False, allow_degenerate=True, f
         return [[[T(u), F(v)] for u, v in r] for r in rings]
 
     def polygon(lo, hi):
+        if invalid_polygons and draw(st.integers(0, 3)) == 0:
+            # soundevent-valid but not shapely-valid outlines: bow-tie, collinear, repeated points, spike
+            a, b = lo + (hi - lo) * 0.1, lo + (hi - lo) * 0.9
+            c, d = draw(st.sampled_from([0.5, 1.0])), draw(st.sampled_from([2.5, 3.5]))
+            shape = draw(st.sampled_from(["bowtie", "bowtie2", "collinear", "repeated", "spike"]))
+            ring = {
+                "bowtie": [[a, c], [b, d], [b, c], [a, d]],
+                "bowtie2": [[a, c], [b, c], [a + (b - a) / 4, d], [b, d], [a, d / 2]],
+                "collinear": [[a, c], [(a + b) / 2, (c + d) / 2], [b, d]],
+                "repeated": [[a, c], [a, c], [a, c]],
+                "spike": [[a, c], [b, c], [b, d], [(a + b) / 2, c], [a, d]],
+            }[shape]
+            return [[[T(u), F(v)] for u, v in ring]]
         # choose a sub-rectangle of [lo,hi]x[0,4]
         if free:
             a = draw(st.floats(lo, lo + (hi - lo) * 0.4))
